@@ -178,7 +178,7 @@ def spec_of(cfg, n_batch=None):
     return sp
 
 
-def converge_trial(s):
+def converge_trial(s, ctx=None):
     """Give the cell a converged trial.  The Hartree-Fock solution comes from an independent
     NumPy solver (afqmcsim.models.scf), not from the library's own optimiser - a library
     optimiser that is wrong would otherwise define what "converged" means.  Preconditions
@@ -202,11 +202,25 @@ def converge_trial(s):
         new = jnp.array(r["ca"])
     else:
         c0a, c0b = np.asarray(wd["mo_coeff"][0]), np.asarray(wd["mo_coeff"][1])
+        # wave_data["rdm1"] is an input of its own (it only fixes the mean-field shift and "may be approximate"): in a third
+        # of the spin-symmetric UHF cells the independent solver starts from different random orbitals per spin, and if it
+        # ends in a symmetry-broken solution the cell hands in the *spin-averaged* density as rdm1 - the situation in which
+        # code that confuses the two (e.g. starts the orbital relaxation from rdm1) is trapped on the restricted solution
+        approx_rdm1 = (not s.spec.get("spin_dep")) and s.spec["ham_seed"] % 3 == 0
+        if approx_rdm1:
+            rs_ = np.random.RandomState((s.spec["ham_seed"] + 17) % (2**32 - 1))
+            c0a = np.linalg.qr(rs_.normal(size=c0a.shape))[0]
+            c0b = np.linalg.qr(rs_.normal(size=c0b.shape))[0]
         r = scf.solve(h1, chol, trial.nelec, c0a, c0b)
         new = [jnp.array(r["ca"]), jnp.array(r["cb"])]
     if not (r["converged"] and r["stable"] and r["gap"] > 1e-3):
         return False
     wd["mo_coeff"] = new
+    if kind == "uhf" and approx_rdm1 and np.max(np.abs(r["da"] - r["db"])) > 1e-2:
+        avg = (r["da"] + r["db"]) / 2
+        wd["rdm1"] = jnp.array(np.array([avg, avg]))
+        if ctx is not None:
+            ctx.probe("spin_averaged_rdm1_with_symmetry_broken_trial", 1)
     s.wave_data = wd
     hd = s.ham.build_measurement_intermediates(dict(s.ham_data_raw), trial, wd)
     s.ham_data = s.ham.build_propagation_intermediates(hd, s.prop, trial, wd)
@@ -364,7 +378,7 @@ def _execute_cross(cfg, ctx):
     from ad_afqmc import sampling
 
     s = lab.build_system(spec_of(cfg), harness=False)
-    if not converge_trial(s):
+    if not converge_trial(s, ctx):
         ctx.count("precondition_trial_not_converged")
         return {"digest": None, "nontrivial": False}
     smp = sampling.sampler(cfg["n_prop_steps"], cfg["n_ene_blocks"], cfg["n_sr_blocks"], 1)
@@ -460,7 +474,7 @@ def _execute_batch(cfg, ctx):
     res = []
     for nb in cfg["n_batch_pair"]:
         s = lab.build_system(spec_of(cfg, n_batch=nb), harness=False)
-        if not converge_trial(s):
+        if not converge_trial(s, ctx):
             ctx.count("precondition_trial_not_converged")
             return {"digest": None, "nontrivial": False}
         smp = sampling.sampler(cfg["n_prop_steps"], cfg["n_ene_blocks"], cfg["n_sr_blocks"], 1)
@@ -499,7 +513,7 @@ def _execute_driver(cfg, ctx):
     from ad_afqmc import sampling
 
     s = lab.build_system(spec_of(cfg), harness=False)
-    if not converge_trial(s):
+    if not converge_trial(s, ctx):
         ctx.count("precondition_trial_not_converged")
         return {"digest": None, "nontrivial": False}
     smp = sampling.sampler(cfg["n_prop_steps"], cfg["n_ene_blocks"], cfg["n_sr_blocks"], cfg["n_blocks"])
